@@ -326,6 +326,9 @@ func c09ControllerCase(t *rapid.T) {
 	// ip_version_prefer: answers of the non-preferred family are held back briefly for
 	// the preferred one; whatever is released must still be the client's own reply
 	c09Prefer = rapid.SampledFrom([]int{0, 0, 0, 4, 6}).Draw(t, "ip_version_prefer")
+	if c09RaceBuild {
+		c09Prefer = 0 // see c09_racebuild_on_test.go
+	}
 	env, err := c09NewCtlEnv(mode)
 	c09Prefer = 0
 	if err != nil {
